@@ -308,6 +308,8 @@ PyModule_AddObject(m, (char *) "{PY_module_name}", submodule);
         Args:
             node -
         """
+        if not node.wrap.python:
+            return
         fmtmembers = node._fmtmembers
 
         ast = node.ast
